@@ -4,7 +4,7 @@
 usage: sensitivity.py <property>|all [--selftest] [--jobs N]
 
 For every edit of the property (sensitivity/edits.py) and every seeded change that the catch matrix says the property's
-check reports (seeded/MATRIX.json):  copy /repo to /tmp/archesens-XXXX, apply, `go build ./...`, run the property's quick
+check reports (seeded/MATRIX.json):  copy /repo to /tmp/archesens-XXXX, apply, run the property's quick
 check with ARCHE_REPO pointing at the copy, remove the copy.
   M edit / seeded change: the expected rule (resp. any rule) must report -> "fired", else "failed"
   B edit / behaviour-preserving refactoring patch (refactor/<name>/patch.diff, written by independent sub-agents):
@@ -26,7 +26,11 @@ def run_check(prop, repo):
     p = subprocess.run([os.path.join(VERIF, "bin", "archecheck"), "-property", prop, "-tier", "quick", "-no-evidence"],
                        capture_output=True, text=True, env=env)
     reports = re.findall(r"^  kind=(\S+)\s+(\S+?)\|(.*)$", p.stdout, re.M)
-    return p.returncode, reports
+    rc = p.returncode
+    # the checker type-checks the variant itself; a variant that does not compile is reported as a load error
+    if rc == 2 and "load/type errors" in (p.stdout + p.stderr):
+        rc = -1
+    return rc, reports
 
 
 def scratch():
@@ -52,10 +56,9 @@ def do_edit(e):
     d = scratch()
     try:
         open(os.path.join(d, e["file"]), "w").write(src.replace(e["old"], e["new"]))
-        ok, why = builds(d)
-        if not ok:
-            return ("skipped", name, "variant does not compile: " + why)
         rc, reports = run_check(e["prop"], d)
+        if rc == -1:
+            return ("skipped", name, "variant does not compile")
         if rc not in (0, 1):
             return ("failed", name, "checker failed on the variant (exit %d)" % rc)
         rules = sorted(set(r[1] for r in reports))
@@ -78,10 +81,9 @@ def do_seed(prop, seed):
         p = subprocess.run(["patch", "-p1", "-s", "-i", patch], cwd=d, capture_output=True, text=True)
         if p.returncode != 0:
             return ("skipped", name, "patch no longer applies to the current tree")
-        ok, why = builds(d)
-        if not ok:
-            return ("skipped", name, "variant does not compile: " + why)
         rc, reports = run_check(prop, d)
+        if rc == -1:
+            return ("skipped", name, "variant does not compile")
         if rc == 1 and reports:
             return ("fired", name, ", ".join(sorted(set(r[1] for r in reports))))
         return ("failed", name, "the catch matrix lists this change for %s, but nothing was reported (exit %d)" % (prop, rc))
@@ -97,10 +99,9 @@ def do_refactor(prop, name):
         p = subprocess.run(["patch", "-p1", "-s", "-i", patch], cwd=d, capture_output=True, text=True)
         if p.returncode != 0:
             return ("skipped", label, "patch no longer applies to the current tree")
-        ok, why = builds(d)
-        if not ok:
-            return ("skipped", label, "variant does not compile: " + why)
         rc, reports = run_check(prop, d)
+        if rc == -1:
+            return ("skipped", label, "variant does not compile")
         if rc != 0 or reports:
             return ("failed", label, "behaviour-preserving refactoring raised (exit %d): " % rc + "; ".join("%s|%s" % (r[1], r[2][:80]) for r in reports[:3]))
         return ("silent", label, "no report")
